@@ -234,7 +234,13 @@ pub fn gen_case(seed: u64, idx: u64) -> Case {
                 3 => Some(u32::MAX as u64 + 1),
                 _ => Some(u64::MAX),
             };
-            let (lc, lp, pb) = if rng.gen_bool(0.7) { (p.lc, p.lp, p.pb) } else { (rng.gen_range(0..=8), rng.gen_range(0..=4), rng.gen_range(0..=4)) };
+            // (also triples outside the ranges of the format: whatever the constructor accepts must decode without panic)
+            let (lc, lp, pb) = match rng.gen_range(0..10) {
+                0..=5 => (p.lc, p.lp, p.pb),
+                6 | 7 => (rng.gen_range(0..=8), rng.gen_range(0..=4), rng.gen_range(0..=4)),
+                8 => (rng.gen_range(0..=40), rng.gen_range(0..=9), rng.gen_range(0..=9)),
+                _ => ([9u32, 10, 12, 16, 31, 32, 255, u32::MAX][rng.gen_range(0..8)], [0u32, 4, 5][rng.gen_range(0..3)], [0u32, 4, 5, 32][rng.gen_range(0..4)]),
+            };
             c.raw = Some((lc, lp, pb, dict, size));
             c.memlimit = [None, Some(0), Some(1), Some(100), Some(1 << 30)][rng.gen_range(0..5)];
             c.api = "raw-lzma".into();
